@@ -216,3 +216,22 @@ let blkpeer toks =
   | _ -> failwith "blkpeer args"
 
 let () = register "blkpeer" blkpeer
+
+(* blktimed <wait> <t0> { P<t> | C<t> }... : the client-side expiry timer; prints the time of
+   the check that deletes the state, or "alive" *)
+let blktimed toks =
+  match toks with
+  | wait :: t0 :: evs ->
+      let w = zi wait in
+      let rec go alive last l =
+        match l with
+        | [] -> "alive"
+        | e :: tl ->
+            let t = String.sub e 1 (String.length e - 1) in
+            let ev = if e.[0] = 'P' then TvProgress (zi t) else TvCheck (zi t) in
+            let (alive', last') = blk_timed_run w alive last [ev] in
+            if alive && not alive' then "expired@" ^ t else go alive' last' tl in
+      go true (zi t0) evs
+  | _ -> failwith "blktimed args"
+
+let () = register "blktimed" blktimed
